@@ -54,7 +54,8 @@ LeDiv(x, nd, thr) ==
   ELSE IF x.k = "inf" THEN (IF thr.k = "inf" THEN "T" ELSE "F")
   ELSE IF x.k = "big" THEN
        (CASE thr.k = "fin"  -> "F"
-          [] thr.k = "bigh" -> IF 2 * x.v <= (2 * thr.v + 1) * nd THEN "T" ELSE "F"
+          [] thr.k = "bigh" -> IF 2 * x.v < (2 * thr.v + 1) * nd THEN "T"
+                                ELSE IF 2 * x.v = (2 * thr.v + 1) * nd THEN "B" ELSE "F"     \* n e30 / nd = (m + 1/2) e30 exactly
           [] thr.k = "inf"  -> "T")
   ELSE \* fin
        (CASE thr.k = "fin"  -> IF x.v < thr.v * nd THEN "T"
